@@ -355,13 +355,134 @@ def clause_d(repo, chk):
         raise AnalysisError("only %d idx bindings found in BaseCustomModel" % n)
 
 
+class _Stop(Exception):
+    pass
+
+
+def enorm_by_interpretation(repo, chk, f):
+    """one cfit method interpreted with the integrators replaced by probes: returns a list of problems, or None if the
+    method has no mixture of the form prob(x) (nothing to decide)"""
+    import sympy as sp
+
+    from ..sym import PyFunc, SelfObj, Translator, Unmodelled
+    X, Cd = sp.Symbol("X"), sp.Symbol("Cdata")
+    EFF, AMP, BG, CAMP = sp.Function("EFF"), sp.Function("AMP"), sp.Function("BG"), sp.Function("CAMP")
+    w = sp.Symbol("w_bkg", positive=True)
+    MC, DATA = ["<mc batches>"], ["<data batches>"]
+    integrals, probes = {}, []
+
+    class _Amp(PyFunc):
+        @property
+        def tok_attrs(self):
+            return {"trainable_variables": [sp.Symbol("theta")], "decay_group": "DG", "vm": None}
+
+    def is_sample(v, tok):
+        return isinstance(v, list) and len(v) == 1 and v[0] == tok[0]
+
+    def integrator(n_ret):
+        def hook(tr, a, k, n):
+            vals = list(a) + list(k.values())
+            fns = [v for v in vals if type(v).__name__ in ("Closure", "BoundMethod", "PyFunc", "_Amp", "Fn")]
+            if not fns:
+                raise Unmodelled("integrator called without a function")
+            F = fns[0]
+            nargs = len(getattr(getattr(F, "node", None), "args", None).args) if hasattr(F, "node") else 1
+            val = tr.apply(F, [X, Cd][:max(1, nargs)], {}, n, 1)
+            if any(is_sample(v, MC) for v in vals):
+                name = sp.Symbol("INT%d" % (len(integrals) + 1), positive=True)
+                integrals[name] = sp.sympify(val)
+                return tuple([name] + [[sp.Symbol("g%d_%d" % (len(integrals), j))] for j in range(n_ret - 1)])
+            if any(is_sample(v, DATA) for v in vals):
+                probes.append(sp.sympify(val))
+                raise _Stop()
+            raise Unmodelled("integrator called on neither the data nor the phase-space sample")
+        return hook
+
+    hooks = {"allow_attr_store": True, "builtin.isinstance": lambda tr_, a_, k_, n_: False}
+    for rel in ("tf_pwa/model/model.py", "tf_pwa/model/opt_int.py", "tf_pwa/model/cfit.py"):
+        for g in repo.mod(rel).funcs.values():
+            if g.parent is None and g.cls is None and g.name.startswith("sum_"):
+                hooks[g.key] = integrator(3 if "hess" in g.name and "hessp" not in g.name else 2)
+    for nm_ in ("split_generator", "data_split"):
+        sg = repo.fn_opt("tf_pwa/data.py::" + nm_)
+        if sg is not None:
+            hooks[sg.key] = lambda tr_, a_, k_, n_: a_[0]
+    ds = repo.fn_opt("tf_pwa/data.py::data_shape")
+    if ds is not None:
+        hooks[ds.key] = lambda tr_, a_, k_, n_: sp.Integer(7)
+
+    def first(tr, d, args, kwargs, n):
+        last = d.split(".")[-1]
+        if last == "Variable":
+            return args[0] if args else kwargs.get("initial_value")
+        if last == "build_angle_amp_matrix":
+            return (None, "cached")
+        if last in ("reduce_sum", "convert_to_tensor") and args and isinstance(args[0], list):
+            return sp.Symbol("S_" + last)
+        return NotImplemented
+
+    hooks["numeric_call_first"] = first
+    for g in repo.func_by_name.get("build_angle_amp_matrix", []):
+        hooks[g.key] = lambda tr_, a_, k_, n_: (None, "cached")
+    vm = SelfObj(None, {"trainable_variables": [sp.Symbol("theta")]})
+    so = SelfObj(f.cls, {
+        "vm": vm, "w_bkg": w, "resolution_size": sp.Integer(1),
+        "sig": PyFunc(lambda x: EFF(x) * AMP(x)), "bg": PyFunc(lambda x: BG(x)), "eff": PyFunc(lambda x: EFF(x)),
+        "Amp": _Amp(lambda x: AMP(x)), "cached_amp": PyFunc(lambda x, c: CAMP(x, c)), "cached_data": {},
+        "get_weight_data": PyFunc(lambda data, weight=None, **k_: (data, weight if weight is not None else ["<w>"])),
+    })
+    names = f.all_param_names()[1:]
+    argmap = {"data": DATA, "mcdata": MC, "weight": ["<w>"], "mc_weight": ["<mcw>"], "batch": sp.Integer(3), "bg": None}
+    args = [argmap.get(nm, None) for nm in names]
+    tr = Translator(repo, hooks=hooks, max_depth=2)
+    try:
+        tr.call_fn(f, args, {}, self_obj=so)
+    except _Stop:
+        pass
+    if not probes:
+        return None
+    P = probes[0]
+    problems = []
+    us = {I: sp.Symbol("u_%s" % I) for I in integrals}
+    Pu = P.subs({I: 1 / u for I, u in us.items()})
+    rest = sp.simplify(Pu.subs({u: 0 for u in us.values()}))
+    if rest != 0:
+        problems.append(("unnormalised", "the per-event density contains the term %s that is divided by no phase-space integral computed in this call (a normalisation taken from an attribute / an earlier call belongs to another sample or parameter point)" % rest))
+    for I, u in us.items():
+        coeff = sp.simplify(sp.diff(sp.expand(Pu), u))
+        if coeff == 0:
+            continue
+        ratio = sp.simplify(coeff / integrals[I])
+        if any(isinstance(a_, sp.core.function.AppliedUndef) for a_ in ratio.atoms(sp.core.function.AppliedUndef)) or ratio.has(X):
+            problems.append(("component:%s" % I, "the component divided by the integral of `%s` over the phase-space sample evaluates `%s` for each event: the mixture is not normalised (e.g. the efficiency is applied on one side only)" % (integrals[I], sp.simplify(coeff))))
+    used = [I for I, u in us.items() if sp.diff(sp.expand(Pu), u) != 0]
+    return problems, P, integrals, used
+
+
 def clause_e(repo, chk):
     """mixture likelihoods: each component is divided by the integral of the very function it evaluates"""
     chk.rule("E-norm", "in every cfit-family nll_grad_batch the per-event function of a mixture component in prob() (what multiplies 1/v_int_X) is the function that was integrated over the phase-space sample to obtain int_X")
     n = 0
     m = repo.mod("tf_pwa/model/cfit.py")
+    from ..sym import Unmodelled as _Unm
     for f in sorted(m.funcs.values(), key=lambda x: x.key):
-        if f.name != "nll_grad_batch" or f.cls is None:
+        if f.name not in ("nll_grad_batch", "nll_grad_hessian") or f.cls is None or f.parent is not None:
+            continue
+        try:
+            res = enorm_by_interpretation(repo, chk, f)
+        except _Unm as e:
+            res = "unmodelled: %s" % e
+        if res is None:
+            continue
+        if not isinstance(res, str):
+            problems, P, integrals, used = res
+            n += max(1, len(used))
+            chk.instance("E-norm", "%s interpreted with the integrators as probes: per-event density %s ; integrals %s: %s" % (f.key, P, {str(k): str(v) for k, v in integrals.items()}, not problems))
+            for construct, msg in problems:
+                chk.violation("E-norm", f.key, construct, msg, file="tf_pwa/model/cfit.py", line=f.lineno)
+            continue
+        chk.info("E-norm: %s not interpretable (%s); falling back to the statement-level rule" % (f.key, res))
+        if f.name != "nll_grad_batch":
             continue
         integ = {}
         for st in walk_local(f.node):
